@@ -142,3 +142,60 @@ Definition first_rest (lines : list rle) (tail : Z) (sch : list Z) : option rle 
       if (c =? 1) || (c =? 2) then nth_error (rest s) (Z.to_nat (ln - lineno_pst (ps s))) else None
   | _ => None
   end.
+
+(* ------------------------------------------------------------------ round 4: parse_async, run for the correspondence.
+   The harness drives the real SymbolFile::parse_async with a reqwest::Response whose body yields exactly the given
+   chunks; only the callback is observable there (the reads are internal), so the trace keeps the callback lengths. *)
+Definition cstep_async : cstate -> stepres rle pst := step_async rle cllen pst recog_pst bump_pst lineno_pst.
+
+Definition tr_step_cb (a : tracc) (s : cstate) (r : stepres rle pst) : tracc :=
+  let s1 := if pr s then crecovery s else s in
+  match (match r with Next s' => Some s' | Done _ s' => Some s' | StPanic _ => None end) with
+  | None => a
+  | Some s' =>
+      let h0 := tr_hash a in
+      let h1 := if pr s then mix (mix h0 2) (cbsum s1 - cbsum s) else h0 in
+      let cb2 := ncb s1 <? ncb s' in
+      let h3 := if cb2 then mix (mix h1 2) (cbsum s' - cbsum s1) else h1 in
+      mk_tr h3 (tr_events a + b2z (pr s) + b2z cb2)
+            (tr_grows a + b2z (b_cap (buf s) <? b_cap (buf s')))
+            (tr_shifts a) (tr_discards a + b2z (pr s && pr s1)) (tr_recovered a + b2z (pr s && negb (pr s1)))
+            (tr_zero_reads a) (tr_full_reads a)
+  end.
+
+Fixpoint iter_tr_async (p : positive) (s : cstate) (a : tracc) : stepres rle pst * tracc :=
+  match p with
+  | xH => let r := cstep_async s in (r, tr_step_cb a s r)
+  | xO q => match iter_tr_async q s a with
+            | (Next s1, a1) => iter_tr_async q s1 a1
+            | ra => ra
+            end
+  | xI q => let r := cstep_async s in
+            let a0 := tr_step_cb a s r in
+            match r with
+            | Next s1 => match iter_tr_async q s1 a0 with
+                         | (Next s2, a2) => iter_tr_async q s2 a2
+                         | ra => ra
+                         end
+            | _ => (r, a0)
+            end
+  end.
+
+(* the async run: outcome (same record as run_case; the reader fields are those of the internal slice reader) + trace *)
+Definition run_async (lines : list rle) (tail : Z) (chunks : list Z) : sym_out * tracc :=
+  let '(res, tr) := iter_tr_async (fuel_for rle cllen lines tail)
+                                  (init_st rle cllen pst init_pst lines tail (0 :: chunks)) init_tr in
+  let none k c l := Build_sym_out k c l 0 0 0 0 0 None 0 0 0 0 None in
+  (match res with
+   | Done r s =>
+       let mk k c l t :=
+         Build_sym_out k c l (cbsum s) (ncb s) (nrd s) (maxsp s) (b_cap (buf s)) t (count_dropped (log s)) 0 0 0 None in
+       match r, table_of r with
+       | ROk _, Ret t => mk 0 0 0 t
+       | ROk _, Panic tag => mk 2 tag 0 None
+       | ROk _, _ => mk 2 (-2) 0 None
+       | RErr c l, _ => mk 1 c l None
+       end
+   | Next _ => none 3 0 0
+   | StPanic t => none 2 t 0
+   end, tr).
